@@ -365,3 +365,195 @@ for _k in NEST:
                           data='bools: outer x defined, block A binds x, block B binds x' + (', block C binds x' if NEST[_k][2] else ''),
                           selectors='nesting %s' % _k.replace('_', ' > '),
                           outside='nesting deeper than %d' % (3 if NEST[_k][2] else 2)))
+
+
+# ------------------------------------------------------------ every tag that takes a NAME calls a callable value; expressions do not
+SITES = {
+    # site: (template, what the callable must return for payload p, expected output for payload p)
+    'var': '<dtml-var f>',
+    'let_name': '<dtml-let y=f><dtml-call "rec(y)"><dtml-call "rec(y)"><dtml-var y></dtml-let>',   # y is rendered once more by name
+    'let_expr': '<dtml-let y="f"><dtml-call "rec(y)"></dtml-let>',
+    'in_name': '<dtml-in f><dtml-call "rec(_[\'sequence-item\'])"></dtml-in>',
+    'in_expr': '<dtml-in "f()"><dtml-call "rec(_[\'sequence-item\'])"></dtml-in>',
+    'with_name': '<dtml-with f mapping><dtml-call "rec(k)"></dtml-with>',
+    'with_expr': '<dtml-with "f()" mapping><dtml-call "rec(k)"></dtml-with>',
+    'if_name': '<dtml-if f>Y<dtml-else>N</dtml-if>',
+    'unless_name': '<dtml-unless f>U</dtml-unless>',
+    'elif_name': '<dtml-if zero>Z<dtml-elif f>Y<dtml-else>N</dtml-if>',
+    'call_name': '<dtml-call f>',
+    'return_name': '<dtml-return f>',
+    'return_expr': '<dtml-return "f">',
+    'var_expr': '<dtml-var "rec(f)">',
+    'call_expr': '<dtml-call "rec(f)">',
+    'if_expr': '<dtml-if "rec(f)">Y</dtml-if>',
+}
+T_SITE = {k: cooked(v) for k, v in SITES.items()}
+SITE_NAMES = sorted(SITES)
+
+
+class Counted:
+    def __init__(self, result):
+        self.result, self.calls = result, 0
+
+    def __call__(self):
+        self.calls += 1
+        return self.result
+
+
+def make_site(site):
+    t = T_SITE[site]
+
+    def ob(p: int, truthy: bool) -> bool:
+        """p: payload (unbounded int); truthy: for conditional sites, whether the callable's result is true"""
+        seen = []
+        by_name = site.endswith('_name') or site == 'var'
+        if site.startswith('in_'):
+            res = [p]
+        elif site.startswith('with_'):
+            res = {'k': p}
+        elif site in ('if_name', 'unless_name', 'elif_name'):
+            res = 1 if truthy else 0
+        elif site in ('var', 'let_name'):
+            res = 'R' if truthy else ''       # rendered to text: kept concrete (rendering a symbolic int stalls CrossHair)
+        else:
+            res = p
+        f = Counted(res)
+
+        def rec(v):
+            seen.append(v)
+            return ''
+        out = t(f=f, rec=rec, zero=0)
+        if site == 'var':
+            return f.calls == 1 and seen == [] and out == res
+        if site == 'let_name':
+            # called once, at the let tag; the body sees the RESULT (also inside expressions), however often it is used
+            return f.calls == 1 and len(seen) == 2 and seen[0] is res and seen[1] is res and out == res
+        if site == 'let_expr':
+            return f.calls == 0 and len(seen) == 1 and seen[0] is f and out == ''
+        if site in ('in_name', 'in_expr', 'with_name', 'with_expr'):
+            return f.calls == 1 and len(seen) == 1 and seen[0] is p and out == ''
+        if site == 'if_name':
+            return f.calls == 1 and out == ('Y' if truthy else 'N')
+        if site == 'unless_name':
+            return f.calls == 1 and out == ('' if truthy else 'U')
+        if site == 'elif_name':
+            return f.calls == 1 and out == ('Y' if truthy else 'N')
+        if site == 'call_name':
+            return f.calls == 1 and out == ''
+        if site == 'return_name':
+            return f.calls == 1 and out is p
+        if site == 'return_expr':
+            return f.calls == 0 and out is f
+        if site in ('var_expr', 'call_expr'):
+            return f.calls == 0 and len(seen) == 1 and seen[0] is f and out == ''
+        if site == 'if_expr':
+            return f.calls == 0 and len(seen) == 1 and seen[0] is f and out == ''
+        return by_name and False
+    ob.__name__ = 'ob_site_' + site
+    return ob
+
+
+for _s in SITE_NAMES:
+    OBLIGATIONS.append(Ob('site_' + _s, make_site(_s), [], timeout=tier(100, 300), data='payload p (unbounded int), truth value of the result for conditional sites',
+                          selectors='template %r: a callable namespace value f, call counter and recorder' % SITES[_s],
+                          outside='tags not listed (tree, raise, comment)'))
+
+T_SITE_DT = cooked('<dtml-let who="\'outer\'"><dtml-let g=sub who="\'inner\'"><dtml-call "rec(g)"></dtml-let></dtml-let>|<dtml-let who="\'w2\'"><dtml-with sub2 mapping><dtml-var k></dtml-with><dtml-in sub3><dtml-var sequence-item></dtml-in></dtml-let>')
+T_DTSUB = HTML('hello <dtml-var who>')
+T_DTSUB.cook()
+
+
+class RenderWith:
+    """namespace value with __render_with_namespace__ (what a DTML Method is): called with the CURRENT namespace"""
+
+    def __init__(self, mk):
+        self.mk = mk
+
+    def __render_with_namespace__(self, md):
+        return self.mk(md['who'])
+
+
+def ob_site_templates(c1: int, c2: int) -> bool:
+    """a document template bound by name in a let is rendered at the let tag, with the namespace current there (bindings to its
+    left in the same tag are NOT yet visible... they are: let binds sequentially; bindings to its right are not)"""
+    who2 = chr(97 + c1 % 26) + chr(97 + c2 % 26)
+    seen = []
+    out = T_SITE_DT(sub=T_DTSUB, rec=seen.append, sub2=RenderWith(lambda w: {'k': '<' + w + '>'}), sub3=RenderWith(lambda w: [w, w]))
+    return seen == ['hello outer'] and out == '|<w2>w2w2'
+
+
+OBLIGATIONS.append(Ob('site_templates', ob_site_templates, ['0 <= c1 < 26', '0 <= c2 < 26'], timeout=tier(100, 300), data='-',
+                      selectors='document template / __render_with_namespace__ objects named in let, with and in: rendered with the namespace current at the tag'))
+
+
+# ------------------------------------------------------------ dtml-in over mixed items: what each iteration pushes is popped again
+class It:
+    def __init__(self, x):
+        self.x = x
+
+    def __str__(self):
+        return 'It'
+
+
+T_MIXED = {
+    'plain': cooked('<dtml-let x=lx><dtml-in seq>(<dtml-var x>)</dtml-in>[<dtml-var x>]</dtml-let>[<dtml-var x>][<dtml-var sequence-index missing=U>]'),
+    'batch': cooked('<dtml-let x=lx><dtml-in seq size=9>(<dtml-var x>)</dtml-in>[<dtml-var x>]</dtml-let>[<dtml-var x>][<dtml-var sequence-index missing=U>]'),
+    'nopush': cooked('<dtml-let x=lx><dtml-in seq no_push_item>(<dtml-var x>)</dtml-in>[<dtml-var x>]</dtml-let>[<dtml-var x>][<dtml-var sequence-index missing=U>]'),
+    'mapping': cooked('<dtml-let x=lx><dtml-in mseq mapping>(<dtml-var x>)</dtml-in>[<dtml-var x>]</dtml-let>[<dtml-var x>][<dtml-var sequence-index missing=U>]'),
+    'mapping_nopush_batch': cooked('<dtml-let x=lx><dtml-in mseq mapping no_push_item size=9>(<dtml-var x>)</dtml-in>[<dtml-var x>]</dtml-let>[<dtml-var x>][<dtml-var sequence-index missing=U>]'),
+    'mapping_nopush': cooked('<dtml-let x=lx><dtml-in mseq mapping no_push_item>(<dtml-var x>)</dtml-in>[<dtml-var x>]</dtml-let>[<dtml-var x>][<dtml-var sequence-index missing=U>]'),
+}
+
+
+def make_mixed(variant):
+    t = T_MIXED[variant]
+
+    def ob(k1: int, k2: int, k3: int, n: int) -> bool:
+        """item kinds per position: 0 object binding x, 1 str, 2 int, 3 (key, object) pair, 4 bytes, 5 object without x"""
+        kinds = [k1, k2, k3][:n]
+        seq, mseq, exp = [], [], ''
+        for i, k in enumerate(kinds):
+            tag = 'i%d' % i
+            if k == 0:
+                seq.append(It(tag)); inner = tag
+            elif k == 1:
+                seq.append('s'); inner = 'let'
+            elif k == 2:
+                seq.append(7); inner = 'let'      # ints are pushed as objects; they have no attribute x
+            elif k == 3:
+                seq.append(('key', It(tag))); inner = tag
+            elif k == 4:
+                seq.append(b'b'); inner = 'let'
+            else:
+                seq.append(It.__new__(It)); inner = 'let'
+            mseq.append({'x': tag} if k in (0, 3) else {'y': 1})
+            if variant in ('nopush', 'mapping_nopush', 'mapping_nopush_batch'):
+                inner = 'let'
+            exp += '(' + inner + ')'
+        out = t(seq=seq, mseq=mseq, lx='let', x='kw')
+        return out == exp + '[let][kw][U]'
+    ob.__name__ = 'ob_mixed_' + variant
+    return ob
+
+
+for _v in T_MIXED:
+    OBLIGATIONS.append(Ob('mixed_items_' + _v, make_mixed(_v), ['0 <= k1 <= 5', '0 <= k2 <= 5', '0 <= k3 <= 5', '0 <= n <= 3'], timeout=tier(150, 400),
+                          data='-', selectors='dtml-in (%s) over up to 3 items whose kinds (object binding x / str / int / (key, object) / bytes / object without x) '
+                          'are selected per position; x observed in every iteration, after </dtml-in> inside an enclosing let, and after the let' % _v,
+                          outside='more than 3 items'))
+
+
+# ------------------------------------------------------------ names that merely LOOK like sequence variables fall through to outer sources
+T_LOOK = cooked('<dtml-in seq prefix=row><dtml-var row_data>,<dtml-var row_items>,<dtml-var row_value>,<dtml-var row_zzz>,<dtml-var row_item>;</dtml-in>')
+T_LOOK2 = cooked('<dtml-in seq><dtml-var sequence-data>,<dtml-var sequence-zzz>,<dtml-var sequence-item>;</dtml-in>')
+
+
+def ob_lookalike_names(a: int, b: int) -> bool:
+    """the in block binds the documented sequence variables only: other names carrying its prefix resolve from outside"""
+    out = T_LOOK(seq=[a, b], row_data='D', row_items='I', row_value='V', row_zzz='Z')
+    out2 = T_LOOK2(seq=[a], **{'sequence-data': 'D', 'sequence-zzz': 'Z'})
+    return out == 'D,I,V,Z,%d;D,I,V,Z,%d;' % (a, b) and out2 == 'D,Z,%d;' % a
+
+
+OBLIGATIONS.append(Ob('lookalike_names', ob_lookalike_names, ['0 <= a <= 1', '0 <= b <= 1'], timeout=tier(100, 300), data='two int elements 0..1',
+                      selectors='outer variables named row_data / row_items / row_value / row_zzz (prefix=row) and sequence-data / sequence-zzz'))
